@@ -11,6 +11,9 @@ open HickoryVerif
 /-- `MAX_KEY_TAG_COLLISIONS` of crates/net/src/dnssec/mod.rs -/
 theorem tie_max_key_tag_collisions :
     SigCheck.MAX_KEY_TAG_COLLISIONS = Generated.MAX_KEY_TAG_COLLISIONS := rfl
+/-- `MAX_RRSIGS_PER_RRSET` of crates/net/src/dnssec/mod.rs -/
+theorem tie_max_rrsigs_per_rrset :
+    SigCheck.MAX_RRSIGS_PER_RRSET = Generated.MAX_RRSIGS_PER_RRSET := rfl
 /-- `SERIAL_BITS_HALF = 1 << (u32::BITS - 1)` -/
 theorem tie_serial_half : SigCheck.HALF = 2 ^ 31 := rfl
 /-- the record-type codes the model tests literally: NSEC = 47, NSEC3 = 50, and class IN = 1 -/
